@@ -76,6 +76,16 @@ func (c *Conn) endSilence() {
 	}
 }
 
+// exemptFromSilence: without a connect timeout nothing obliges a client to
+// leave a connection whose CONNECT is never answered; the silent period then
+// starts after the CONNECT/CONNACK exchange.
+func (c *Conn) exemptFromSilence(p *Pkt) bool {
+	if p == nil || c.s.sc.Cfg.TimeoutUs != 0 {
+		return false
+	}
+	return p.Type == TConnect || p.Type == TConnAck
+}
+
 func (c *Conn) isSilent() bool {
 	c.mu.Lock()
 	defer c.mu.Unlock()
@@ -339,7 +349,7 @@ func (c *Conn) send(p *Pkt, raw []byte, class string, extraDelayNs int64, frag [
 // releasePart puts fragment i of packet m into the read buffer (engine S).
 func (c *Conn) releasePart(m int, p *Pkt, raw []byte, class string, parts [][]byte, i int, eofAfter bool) {
 	s := c.s
-	if c.isSilent() {
+	if c.isSilent() && !c.exemptFromSilence(p) {
 		if i == 0 {
 			s.log(Rec{Kind: "dropb2c", Conn: c.k, N: m, P: p, S: "silent"})
 		}
